@@ -293,16 +293,49 @@ pub fn run_history_a(cfg: Cfg, ops: &[Op]) -> Option<(usize, Finding)> {
 }
 
 /// regime B: arbitrary sync placement; history-level reference model of what a lookup may return
-pub fn run_history_b(cfg: Cfg, ops: &[Op]) -> Option<(usize, Finding)> {
+pub fn run_history_b(cfg: Cfg, ops: &[Op]) -> Option<(usize, Finding)> { run_history_b2(cfg, ops, false) }
+/// `late`: leave the housekeeper's start-up window first. For the first 500 ms after construction every operation runs pending
+/// maintenance by itself (`Housekeeper::should_apply`); only after that do read and write records really stay queued until
+/// an explicit sync() (or 64 of them pile up). Both situations are explored.
+pub fn run_history_b2(cfg: Cfg, ops: &[Op], late: bool) -> Option<(usize, Finding)> {
     let (c, mock) = build(cfg);
-    // reference: key -> (value, weight, last write reading, last access reading)
-    let mut refm: Vec<Option<(u8, u32, Instant, Instant)>> = vec![None; 256];
+    if late { mock.increment(Duration::from_secs(1)); }
+    let mut written: Vec<u8> = Vec::new();
+    // reference: key -> (value, weight, last write reading, last access reading, last access reading that maintenance is
+    // known to have applied). C03: "on the concurrent cache the idle-timer extension of a get is only guaranteed once pending
+    // maintenance has run": a hit may rely on the latest access (soundness, C06), a live entry must be returned only on the
+    // strength of the accesses an explicit sync() has applied (completeness, C03)
+    let mut refm: Vec<Option<(u8, u32, Instant, Instant, Instant)>> = vec![None; 256];
     let mut va: Option<Instant> = None;
     for (i, op) in ops.iter().enumerate() {
         let now = c.base.current_time_from_expiration_clock();
-        let legit = |k: u8, refm: &Vec<Option<(u8, u32, Instant, Instant)>>| -> Option<u8> {
-            match refm[k as usize] { Some((v, _w, tm, ta)) if !hidden(&cfg, va, ta, tm, now) => Some(v), _ => None }
+        let legit = |k: u8, refm: &Vec<Option<(u8, u32, Instant, Instant, Instant)>>| -> Option<u8> {
+            match refm[k as usize] { Some((v, _w, tm, ta, _)) if !hidden(&cfg, va, ta, tm, now) => Some(v), _ => None }
         };
+        let surely_live = |k: u8, refm: &Vec<Option<(u8, u32, Instant, Instant, Instant)>>| -> Option<u8> {
+            match refm[k as usize] { Some((v, _w, tm, _, ta_applied)) if !hidden(&cfg, va, ta_applied, tm, now) => Some(v), _ => None }
+        };
+        let mut sync_after = false;
+        if late {
+            // The window "an entry of the map has been overwritten (its shared EntryInfo already carries the new weight and
+            // stamps) but the write record is still queued" is where the concurrent cache is known to be broken (family
+            // KF-SYNC-1, DESIGN.md section 6: a maintenance step that removes such an entry gives back the wrong weight, the
+            // queued record later re-admits nodes for a key that is gone, an older record's rejection removes the newer entry).
+            // Outside the start-up window nothing runs maintenance inside `insert`, so the harness cannot recognise the family
+            // by its runtime observation. This regime therefore keeps that window closed -- an insert that OVERWRITES a map entry
+            // is wrapped in maintenance runs, and so is a second write of a key whose first write is still queued -- and
+            // explores everything else that can stay queued: reads, first writes, removals, several keys.
+            match *op {
+                Op::Insert(k, _) => {
+                    let overwrite = peek(&c.base).map.iter().any(|e| e.key == k);
+                    if overwrite || written.contains(&k) { c.sync(); written.clear(); sync_after = overwrite; }
+                    if !overwrite { written.push(k); }
+                }
+                Op::Invalidate(k) => { written.push(k); }
+                Op::Sync => { written.clear(); }
+                _ => {}
+            }
+        }
         let before = if matches!(*op, Op::Contains(_) | Op::Iter) { Some(peek(&c.base)) } else { None };
         let got = exec(&c, &mock, *op);
         if let Some(b) = before {
@@ -314,7 +347,7 @@ pub fn run_history_b(cfg: Cfg, ops: &[Op]) -> Option<(usize, Finding)> {
         }
         match *op {
             Op::Insert(k, v) => {
-                refm[k as usize] = Some((v, weight_of(&cfg, v), now, now));
+                refm[k as usize] = Some((v, weight_of(&cfg, v), now, now, now));
                 // KNOWN FAMILY KF-SYNC-1 (see known_findings.txt, DESIGN.md section 6): `insert` writes the map, then runs pending
                 // maintenance, then queues its write record. If that maintenance run removes the entry just written (expired
                 // at once, evicted, picked as a victim, or hit by an older queued rejection of the same key) the queued record
@@ -332,13 +365,13 @@ pub fn run_history_b(cfg: Cfg, ops: &[Op]) -> Option<(usize, Finding)> {
                 if got != "None" {
                     match legit(k, &refm) { Some(v) if got == format!("Some({})", v) => { if let Some(e) = refm[k as usize].as_mut() { e.3 = now; } }
                         other => return Some((i, Finding { tags: "C01,C05,C06,C07", what: format!("get({}) returned {} but the reference allows {:?}", k, got, other) })) }
-                } else if cfg.cap.is_none() && legit(k, &refm).is_some() {
+                } else if cfg.cap.is_none() && surely_live(k, &refm).is_some() {
                     return Some((i, Finding { tags: "C03,C01,C07", what: format!("get({}) returned None for a live entry of an unbounded cache", k) }));
                 }
             }
             Op::Contains(k) => {
                 if got == "true" && legit(k, &refm).is_none() { return Some((i, Finding { tags: "C01,C05,C06,C07", what: format!("contains_key({}) is true but the reference holds no live entry", k) })); }
-                if got == "false" && cfg.cap.is_none() && legit(k, &refm).is_some() { return Some((i, Finding { tags: "C03,C01,C07", what: format!("contains_key({}) is false for a live entry of an unbounded cache", k) })); }
+                if got == "false" && cfg.cap.is_none() && surely_live(k, &refm).is_some() { return Some((i, Finding { tags: "C03,C01,C07", what: format!("contains_key({}) is false for a live entry of an unbounded cache", k) })); }
             }
             Op::Iter => {
                 if got.starts_with("iteration") { return Some((i, Finding { tags: "C01,C08", what: got })); }
@@ -348,9 +381,11 @@ pub fn run_history_b(cfg: Cfg, ops: &[Op]) -> Option<(usize, Finding)> {
                     for part in s.split("), (") { let t = part.trim_matches(|ch| ch == '(' || ch == ')'); if t.is_empty() { continue; }
                         let mut it = t.split(", "); let a: u8 = it.next().unwrap().parse().unwrap(); let b: u8 = it.next().unwrap().parse().unwrap(); v.push((a, b)); } v };
                 for y in &yielded { if !live.contains(y) { return Some((i, Finding { tags: "C01,C05,C06,C07", what: format!("iteration yielded {:?} which is not a live entry", y) })); } }
-                if cfg.cap.is_none() { for l in &live { if !yielded.contains(l) { return Some((i, Finding { tags: "C03,C01,C07", what: format!("iteration did not yield the live entry {:?}", l) })); } } }
+                let sure: Vec<(u8, u8)> = (0..=255u8).filter_map(|k| surely_live(k, &refm).map(|v| (k, v))).collect();
+                if cfg.cap.is_none() { for l in &sure { if !yielded.contains(l) { return Some((i, Finding { tags: "C03,C01,C07", what: format!("iteration did not yield the live entry {:?}", l) })); } } }
             }
             Op::Sync => {
+                for e in refm.iter_mut().flatten() { e.4 = e.3; }
                 let pk = peek(&c.base);
                 let mut errs = Vec::new();
                 let s = snap_of(&pk, &mut errs, &cfg);
@@ -366,6 +401,7 @@ pub fn run_history_b(cfg: Cfg, ops: &[Op]) -> Option<(usize, Finding)> {
             }
             Op::Advance(_) => {}
         }
+        if sync_after { c.sync(); for e in refm.iter_mut().flatten() { e.4 = e.3; } }
     }
     None
 }
@@ -389,8 +425,8 @@ fn configs() -> Vec<Cfg> {
 struct Rng(u64);
 impl Rng { fn next(&mut self) -> u64 { self.0 ^= self.0 << 13; self.0 ^= self.0 >> 7; self.0 ^= self.0 << 17; self.0 } fn below(&mut self, n: usize) -> usize { (self.next() % n as u64) as usize } }
 
-fn shrink(cfg: Cfg, ops: Vec<Op>, tags: &'static str, regime_a: bool) -> Vec<Op> {
-    let run = |o: &[Op]| if regime_a { run_history_a(cfg, o) } else { run_history_b(cfg, o) };
+fn shrink(cfg: Cfg, ops: Vec<Op>, tags: &'static str, regime: u8) -> Vec<Op> {
+    let run = |o: &[Op]| if regime == 0 { run_history_a(cfg, o) } else { run_history_b2(cfg, o, regime == 2) };
     let mut cur = ops;
     loop {
         let mut progressed = false;
@@ -409,18 +445,18 @@ fn verif_rt_sync() {
     let (exh_len, rnd_n, rnd_len) = if tier == "thorough" { (3usize, 20_000usize, 40usize) } else { (2usize, 2_500usize, 30usize) };
     let cfgs = configs();
     let mut histories = 0u64; let mut steps = 0u64; let mut findings = 0;
-    let mut seen: Vec<(&'static str, bool, bool)> = Vec::new();
-    let mut handle = |cfg: Cfg, seq: &[Op], regime_a: bool, findings: &mut i32, seen: &mut Vec<(&'static str, bool, bool)>| {
-        let r = if regime_a { run_history_a(cfg, seq) } else { run_history_b(cfg, seq) };
+    let mut seen: Vec<(&'static str, u8, bool)> = Vec::new();
+    let mut handle = |cfg: Cfg, seq: &[Op], regime: u8, findings: &mut i32, seen: &mut Vec<(&'static str, u8, bool)>| {
+        let r = if regime == 0 { run_history_a(cfg, seq) } else { run_history_b2(cfg, seq, regime == 2) };
         if let Some((at, f)) = r {
             // one report per (tags, regime, known-family-or-not): a finding of the known family never hides another one
             let kf = f.what.contains("pattern=KF-");
-            if !seen.contains(&(f.tags, regime_a, kf)) {
-                seen.push((f.tags, regime_a, kf));
-                let s = shrink(cfg, seq[..(at + 1).min(seq.len())].to_vec(), f.tags, regime_a);
-                let (at2, f2) = (if regime_a { run_history_a(cfg, &s) } else { run_history_b(cfg, &s) }).unwrap();
+            if !seen.contains(&(f.tags, regime, kf)) {
+                seen.push((f.tags, regime, kf));
+                let s = shrink(cfg, seq[..(at + 1).min(seq.len())].to_vec(), f.tags, regime);
+                let (at2, f2) = (if regime == 0 { run_history_a(cfg, &s) } else { run_history_b2(cfg, &s, regime == 2) }).unwrap();
                 println!("RT-FAIL tags={} what=[sync cache, {}] {} cfg={:?} failing_op_index={} history={:?}", f2.tags,
-                    if regime_a { "maintenance after every operation" } else { "free sync placement" }, f2.what, cfg, at2, &s[..(at2 + 1).min(s.len())]);
+                    match regime { 0 => "maintenance after every operation", 1 => "free sync placement", _ => "free sync placement, after the housekeeper's start-up window" }, f2.what, cfg, at2, &s[..(at2 + 1).min(s.len())]);
                 *findings += 1;
             }
         }
@@ -429,7 +465,7 @@ fn verif_rt_sync() {
     let mut idx = vec![0usize; exh_len];
     'outer: loop {
         let seq: Vec<Op> = idx.iter().map(|i| ops_a[*i]).collect();
-        for cfg in &cfgs { histories += 1; steps += seq.len() as u64; handle(*cfg, &seq, true, &mut findings, &mut seen); }
+        for cfg in &cfgs { histories += 1; steps += seq.len() as u64; handle(*cfg, &seq, 0, &mut findings, &mut seen); }
         let mut j = 0;
         loop { idx[j] += 1; if idx[j] < ops_a.len() { break; } idx[j] = 0; j += 1; if j == exh_len { break 'outer; } }
         if findings >= 6 { break; }
@@ -439,12 +475,13 @@ fn verif_rt_sync() {
     for n in 0..rnd_n {
         if findings >= 6 { break; }
         let cfg = cfgs[rng.below(cfgs.len())];
-        let regime_a = n % 2 == 0;
+        let regime = (n % 4) as u8; let regime = if regime == 3 { 2 } else { regime };
+        let regime_a = regime == 0;
         let alphabet = if regime_a { &big_a } else { &big_b };
         let mut seq: Vec<Op> = (0..rnd_len).map(|_| alphabet[rng.below(alphabet.len())]).collect();
         if !regime_a { seq.push(Op::Sync); }
         histories += 1; steps += seq.len() as u64;
-        handle(cfg, &seq, regime_a, &mut findings, &mut seen);
+        handle(cfg, &seq, regime, &mut findings, &mut seen);
     }
     // directed part: invalidate_all followed by a rewrite of the same key, repeated invalidate_all, late-applied reads
     for cfg in &cfgs {
@@ -466,10 +503,11 @@ fn verif_rt_sync() {
                 vec![Op::Insert(k, v), Op::Get(k), Op::Advance(d), Op::Insert(k, v + 1), Op::Advance(d), Op::Sync, Op::Get(k), Op::Iter],
             ];
             for t in &templates {
-                for regime_a in [true, false] {
+                for regime in [0u8, 1, 2] {
+                    let regime_a = regime == 0;
                     let seq: Vec<Op> = if regime_a { t.iter().cloned().filter(|o| *o != Op::Sync).collect() } else { t.clone() };
                     histories += 1; steps += seq.len() as u64;
-                    handle(*cfg, &seq, regime_a, &mut findings, &mut seen);
+                    handle(*cfg, &seq, regime, &mut findings, &mut seen);
                 }
             }
         }}}
@@ -493,7 +531,7 @@ fn verif_rt_sync_survey() {
             seq.push(Op::Sync);
             for cfg in &cfgs {
                 if let Some((_at, f)) = run_history_b(*cfg, &seq) {
-                    let s = shrink(*cfg, seq.clone(), f.tags, false);
+                    let s = shrink(*cfg, seq.clone(), f.tags, 1);
                     // canonical shape: operation kinds with weights instead of values, keys renamed by first appearance
                     let mut names: Vec<u8> = Vec::new();
                     let shape: Vec<String> = s.iter().map(|o| match o {
@@ -513,3 +551,4 @@ fn verif_rt_sync_survey() {
     for (k, (n, what)) in &shapes { println!("SHAPE n={} {} :: {}", n, k, what); }
     println!("SHAPES {}", shapes.len());
 }
+
